@@ -159,10 +159,9 @@ func constructs(tier string) []construct {
 		cs = append(cs, prog("branching-dependencies", f.String()))
 	}
 	// 6. deep nesting and huge constants
+	// depth 100000 takes tens of seconds (quadratic somewhere): too close to the
+	// hang threshold to give the same verdict on a busy machine; left out
 	nests := []int{100, 1000, 10000}
-	if tier == "thorough" {
-		nests = append(nests, 100000)
-	}
 	for _, n := range nests {
 		cs = append(cs, prog("deep-nesting", "func main() { _ = "+strings.Repeat("(", n)+"1"+strings.Repeat(")", n)+" }\n"))
 		cs = append(cs, prog("deep-nesting", "func main() { _ = "+strings.Repeat("-", n)+"1 }\n"))
